@@ -142,7 +142,7 @@ def ids(xs):
     return collections.Counter(id(x) for x in xs)
 
 
-def judge(acc, cls, model, payload, ref_ctc_asts=None):
+def judge(acc, cls, model, payload, ref_ctc_asts=None, removed_names=()):
     problems = []
 
     def bad(clause, where, msg):
@@ -216,6 +216,9 @@ def judge(acc, cls, model, payload, ref_ctc_asts=None):
     missing = "no such feature \x00"
     if model.get_feature_by_name(missing) is not None:
         bad("lookup-by-name", "FeatureModel.get_feature_by_name", "unknown name returned a feature")
+    for nm in removed_names:
+        if nm not in names and model.get_feature_by_name(nm) is not None:
+            bad("lookup-by-name", "FeatureModel.get_feature_by_name", f"{nm!r} is no longer in the tree but is still found")
     for getter, pred in (("get_mandatory_features", "is_mandatory"), ("get_optional_features", "is_optional"),
                          ("get_alternative_group_features", "is_alternative_group"),
                          ("get_or_group_features", "is_or_group"), ("get_boolean_features", "is_boolean"),
@@ -308,6 +311,90 @@ def simple_form(ast):
     return None
 
 
+def edit_histories(acc, source, spec, payload):
+    """Histories on ONE model object: every query is asked first (which fills whatever the library may
+    cache), then the tree is edited through the public API, then every query is judged again against the
+    identity walk of the edited tree."""
+    from flamapy.metamodels.fm_metamodel.models import Feature, Relation, FeatureModel
+    r = rand.rng("c03-edit", S.digest(spec))
+
+    def fresh():
+        m = S.build(spec)
+        judge(acc, source, m, payload, None)      # first round of queries (results judged by the main case already)
+        return m
+
+    def finish(kind, m, removed=()):
+        cls = "history:" + kind
+        try:
+            probs = judge(acc, cls, m, payload, None, removed)
+        except Exception as e:  # noqa: BLE001
+            acc.fail(cls, "no-exception", "queries-after-edit", [], f"raises:{type(e).__name__}", str(e)[:200],
+                     dict(payload, history=kind))
+            return
+        if probs:
+            seen = set()
+            for clause, where, msg in probs:
+                if (clause, where) not in seen:
+                    seen.add((clause, where))
+                    acc.fail(cls, clause, where, [], "disagrees-with-tree-after-edit", msg, dict(payload, history=kind))
+        else:
+            acc.held(cls, S.digest([kind, spec]))
+
+    def subtree_names(f):
+        out, st = [], [f]
+        while st:
+            x = st.pop()
+            out.append(x.name)
+            for rel in x.relations:
+                st.extend(rel.children)
+        return out
+    # (1) prune a relation of a feature that has grandchildren below it
+    m = fresh()
+    feats, rels, owner, parent = walk(m)
+    cands = [rel for rel in rels if any(c.relations for c in rel.children)]
+    if cands:
+        rel = r.choice(cands)
+        gone = [n for c in rel.children for n in subtree_names(c)]
+        owner[id(rel)].relations.remove(rel)
+        finish("prune-subtree", m, gone)
+    # (2) move a subtree to another parent (old relation shrinks or disappears, add_relation under the new one)
+    m = fresh()
+    feats, rels, owner, parent = walk(m)
+    movable = [f for f in feats if parent[id(f)] is not None]
+    if len(feats) >= 3 and movable:
+        f = r.choice(movable)
+        sub = set(subtree_names(f))
+        dests = [g for g in feats if g.name not in sub and g is not parent[id(f)]]
+        if dests:
+            q = r.choice(dests)
+            p = parent[id(f)]
+            for rel in list(p.relations):
+                if any(c is f for c in rel.children):
+                    rel.children.remove(f)
+                    if not rel.children:
+                        p.relations.remove(rel)
+            q.add_relation(Relation(q, [f], 0, 1))
+            finish("move-subtree", m)
+    # (3) a feature created with parent=X but attached under Y
+    m = fresh()
+    feats, rels, owner, parent = walk(m)
+    if len(feats) >= 2:
+        x, y = r.sample(feats, 2)
+        nf = Feature("Attached9", [], parent=x)
+        y.add_relation(Relation(y, [nf], 1, 1))
+        finish("created-with-other-parent", m)
+    # (4) the old root under a new root, in a new FeatureModel
+    m = fresh()
+    nr = Feature("NewRoot9", [])
+    nr.add_relation(Relation(nr, [m.root], 1, 1))
+    finish("re-rooted", FeatureModel(nr, list(m.ctcs)))
+    # (5) a new root assigned on the same FeatureModel object; the old tree's names must be gone
+    m = fresh()
+    old_names = [f.name for f in walk(m)[0]]
+    m.root = Feature("Lonely9", [])
+    finish("root-replaced", m, old_names)
+
+
 def run_case(acc, source, spec, path, seed=0):
     from flamapy.metamodels.fm_metamodel import transformations as T
     payload = {"source": source, "path": path,
@@ -361,6 +448,8 @@ def run_case(acc, source, spec, path, seed=0):
                 acc.fail(cls, clause, where, [], "disagrees-with-tree", msg, payload, key)
         else:
             acc.held(cls, key)
+    if source in ("shape", "random") and spec is not None and S.digest(spec)[0] in "01" and len(S.feature_names(spec)) <= 60:
+        edit_histories(acc, source, {"root": spec["root"], "ctcs": []}, payload)
     if len(acc.samples) < 3 and source == "random":
         acc.sample({"source": source, "features": len(S.feature_names(spec)), "ctcs": spec["ctcs"][:4]})
 
